@@ -225,18 +225,10 @@ def enum_fuzz(ctx):
 
 def build_fuzzer():
     from vlib import build
-    sha = build.source_hash()
-    out = os.path.join(build.BUILD, sha, "engine_fuzz")
-    if os.path.exists(out):
-        return out
-    os.makedirs(os.path.dirname(out), exist_ok=True)
-    cmd = ["clang++-14", "-std=c++14", "-O1", "-g", "-fsanitize=fuzzer,address,undefined", "-fno-sanitize-recover=undefined",
-           "-D_GLIBCXX_ASSERTIONS", "-I", build.SRC, os.path.join(VERIF, "fuzz", "engine_fuzz.cpp"), "-o", out + ".tmp"]
-    r = subprocess.run(cmd, capture_output=True, text=True)
-    if r.returncode != 0:
-        raise HarnessError("fuzzer build failed: " + r.stderr[-1500:])
-    os.replace(out + ".tmp", out)
-    return out
+    try:
+        return build.fuzzer_path()
+    except build.BuildError as e:
+        raise HarnessError(str(e))
 
 
 def check_fuzz(ctx, c):
